@@ -133,7 +133,9 @@ class Chunk:
         if subruns is None:
             self._subruns = None
         else:
-            self._subruns = dict(sorted(subruns.items(), key=lambda x: x[1]["start"]))
+            self._subruns = dict(
+                sorted(subruns.items(), key=lambda x: (x[1]["start"], x[1]["end"]))
+            )
             _sorted_subruns_check(self._subruns)
 
     @property
@@ -194,7 +196,9 @@ class Chunk:
             raise ValueError(
                 f"If superrun {superrun} of {self} has only one run_id, run_id should be provided."
             )
-        self._superrun = dict(sorted(superrun.items(), key=lambda x: x[1]["start"]))
+        self._superrun = dict(
+            sorted(superrun.items(), key=lambda x: (x[1]["start"], x[1]["end"]))
+        )
         _sorted_subruns_check(self._superrun)
 
     def _mbs(self):
